@@ -49,6 +49,6 @@ void h_RDPE(void)
   VF_CANARY();
 }
 //@run name=RDP.eps.len5 entry=h_RDPE defs=LEN=5 unwind=7 unwindset=RDP:4 flags="--bounds-check --pointer-check --unsigned-overflow-check" timeout=600 bounded="path length exactly 5, pairwise distinct consecutive points; distances an arbitrary table"
-//@run name=RDP.eps.len6 entry=h_RDPE defs=LEN=6 unwind=8 unwindset=RDP:5 flags="--bounds-check --pointer-check --unsigned-overflow-check" timeout=600 bounded="path length exactly 6" tier=thorough
-//@run name=RDP.eps.len7 entry=h_RDPE defs=LEN=7 unwind=9 unwindset=RDP:6 flags="--bounds-check --pointer-check --unsigned-overflow-check" timeout=900 bounded="path length exactly 7" tier=thorough
+//@run name=RDP.eps.len6 entry=h_RDPE defs=LEN=6 unwind=8 unwindset=RDP:5 flags="--bounds-check --pointer-check --unsigned-overflow-check" mem=24 timeout=600 bounded="path length exactly 6" tier=deep
+//@run name=RDP.eps.len7 entry=h_RDPE defs=LEN=7 unwind=9 unwindset=RDP:6 flags="--bounds-check --pointer-check --unsigned-overflow-check" mem=24 timeout=900 bounded="path length exactly 7" tier=deep
 //@assume bounded: the epsilon clause of RDP quantifies over the nearest flagged neighbours of every removed vertex; no quantifier-free recursive contract was found, so it is checked with the length fixed per run.
